@@ -6,6 +6,8 @@ EXTENDS DbSessionDef, Judge
 Clauses(r) ==
   << <<"known-commands", \A i \in DOMAIN r.steps : r.steps[i].cmd \in Cmds>>,
      <<"database-files-and-listing-unchanged-after-every-step", \A i \in DOMAIN r.steps : r.steps[i].unchanged>>,
+     <<"journal-only-while-a-statement-level-write-is-open", \A i \in DOMAIN r.steps :
+          r.steps[i].journal => StmtOpen([j \in DOMAIN r.steps |-> r.steps[j].cmd], i)>>,
      <<"commit-is-refused-and-failing-commands-fail", \A i \in DOMAIN r.steps : r.steps[i].outcome \in Outcomes(r.steps[i].cmd)>>,
      <<"pending-changes-are-never-flushed", \A i \in DOMAIN r.steps :
           LET before == IF i = 1 THEN NoPending ELSE r.steps[i - 1].pending
